@@ -27,7 +27,9 @@ RULE = ("every device class with a setter (introspected; a setter without a driv
         "configurations (invert flags, scaling ranges incl. reversed, set-point shift mode DPT 6.010 count x step / DPT 9.002 / "
         "undetermined, step sizes, shift and temperature limits, fan percent / step mode and max_step, cover invert_position / "
         "invert_angle / invert_updown and address subsets, light colour modes, climate-mode address subsets) x 1-4 setter calls with "
-        "values across, at and just outside each setter's range (integers, k*step +- ulp, ties, fractions); non-trivial = distinct "
+        "values across, at and just outside each setter's range (integers, k*step +- ulp, ties, fractions), plus two-/three-step sequences "
+        "on the SAME device (a command or incoming state telegram sets a non-default prior value, then the command under test with a "
+        "falsy target - 0, 0.0, False, '', midnight, None components of colour values - or a partial update); non-trivial = distinct "
         "cases in which at least one call was accepted and queued a telegram")
 TRUSTED = [
     "queued telegrams are handed to xknx.devices.process() as OUTGOING in queue order (TelegramQueue.process_telegram_outgoing "
@@ -280,7 +282,15 @@ def shrink(case, msg):
 
 
 def generate(rng, tier):
+    from harness import c39_seq
+
     thorough = tier != "quick"
+    # sequences on the SAME device: prior value, then the command under test (falsy targets, partial updates)
+    yield from c39_seq.fixed_sequences()
+    for name in sorted(DR.DRIVERS):
+        drv = DR.DRIVERS[name]
+        for _ in range(drv.weight * (80 if not thorough else 2500)):
+            yield c39_seq.SEQ[name](rng, drv)
     for name in sorted(DR.DRIVERS):
         drv = DR.DRIVERS[name]
         yield from drv.boundary_cases()
